@@ -39,7 +39,9 @@ StepVerdicts(s, o) ==
     \cup (IF s.act \in {"marshal", "reuse"} /\ o.aliases THEN {<<"C11", "marshal-output-shares-memory-with-value">>} ELSE {})
     \cup (IF s.act = "unmarshal" /\ o.aliases THEN {<<"C11", "decoded-value-shares-memory-with-input">>} ELSE {})
     \cup (IF s.act = "unmarshal" /\ o.err # "" THEN {<<"C10", "unmarshal-error">>} ELSE {})
-    \cup (IF s.act = "unmarshal" /\ o.err = "" /\ HasVar(post, s.i) /\ ~Same(s.i, LoggedVar(post, s.i), ev[s.i]) THEN {<<"C10", "decoded-value">>} ELSE {})
+    \cup (IF s.act = "unmarshal" /\ o.err = "" /\ ~Decode(SysCfg(s.i), TypeOf(s.i), bufs[s.b], vars[s.i]).ok
+          THEN {<<"C10", "accepted-bytes-the-model-cannot-decode">>}       \* the buffer does not hold what the specification says it holds
+          ELSE IF s.act = "unmarshal" /\ o.err = "" /\ HasVar(post, s.i) /\ ~Same(s.i, LoggedVar(post, s.i), ev[s.i]) THEN {<<"C10", "decoded-value">>} ELSE {})
     \* frame conditions: nothing but the call's own target changes
     \cup {<<"C11", "buffer-changed-by-" \o s.act>> : b \in {b \in Bufs \ tgtBuf : LoggedBuf(post, b) # bufs[b]}}
     \cup {<<"C11", "variable-changed-by-" \o s.act>> : i \in {i \in CatIdx \ tgtVar : HasVar(post, i) /\ ~Same(i, LoggedVar(post, i), vars[i])}}
